@@ -117,6 +117,21 @@ fn compile(cmd: &Value) -> Value {
     }
 }
 
+/// two rasn compilers are set up first and run afterwards
+fn compile_pair(cmd: &Value) -> Value {
+    let get = |k: &str| -> Vec<String> { cmd[k].as_array().map(|a| a.iter().filter_map(|s| s.as_str().map(|s| s.to_string())).collect()).unwrap_or_default() };
+    let (sa, sb) = (get("a"), get("b"));
+    let ca = add_sources(Compiler::<RasnBackend, _>::new_with_config(rasn_config(&cmd["config"])), &sa);
+    let cb = add_sources(Compiler::<RasnBackend, _>::new_with_config(rasn_config(&cmd["config"])), &sb);
+    let fmt = |res: Result<rasn_compiler::CompileResult, CompilerError>, sources: &Vec<String>| match res {
+        Ok(r) => json!({"ok": true, "generated": r.generated, "warnings": r.warnings.iter().map(|w| err_json(w, sources)).collect::<Vec<Value>>()}),
+        Err(e) => json!({"ok": false, "error": err_json(&e, sources)}),
+    };
+    let ra = ca.compile_to_string();
+    let rb = cb.compile_to_string();
+    json!({"a": fmt(ra, &sa), "b": fmt(rb, &sb)})
+}
+
 // ---------------------------------------------------------------- syn projection
 fn ts<T: quote::ToTokens>(t: &T) -> String {
     t.to_token_stream().to_string()
@@ -275,6 +290,7 @@ fn handle(cmd: &Value) -> Value {
     match cmd["cmd"].as_str().unwrap_or("") {
         "compile" => compile(cmd),
         "compile_file" => compile_file(cmd),
+        "compile_pair" => compile_pair(cmd),
         "project" => project(cmd["text"].as_str().unwrap_or("")),
         "ping" => json!({"pong": true}),
         other => json!({"error": format!("unknown cmd {other}")}),
